@@ -837,7 +837,12 @@ def emit_fn(em, idx, c, rewrites, verify=True, in_trait_impl=False):
     em.add(join(sig), origin="%s:signature" % fnid)
     if not in_trait_impl or True:
         clause_block(em, "requires", c.requires, fnid, "requires")
-        clause_block(em, "ensures", c.ensures, fnid, "ensures")
+        ens = list(c.ensures)
+        if VACUITY["on"] and c.requires and not trusted and not in_trait_impl:
+            # vacuity twin: with a satisfiable precondition this extra clause MUST fail
+            ens = ens + [("vacuity-twin", "false")]
+            VACUITY["fns"].append(fnid)
+        clause_block(em, "ensures", ens, fnid, "ensures")
     if c.decreases:
         em.add("    decreases " + c.decreases + ",")
     em.add("{", origin="%s:body" % fnid)
@@ -917,6 +922,7 @@ use std::io;
 use std::sync::Arc;
 use std::ops::Deref;
 use std::convert::TryFrom;
+use std::cmp::Ordering;
 """
 
 
@@ -941,7 +947,16 @@ def assume_proofs(text):
     return re.sub(r"(?m)^(\s*)(pub\s+)?(broadcast\s+)?proof\s+fn\s", lambda m: m.group(1) + "#[verifier::external_body] " + (m.group(2) or "") + (m.group(3) or "") + "proof fn ", text)
 
 
-def build_unit(idx, vc_verify, vc_trusted, spec_files, verif_root, only_fns=None, spec_import=(), module_ext=True):
+VACUITY = {"on": False, "fns": []}
+
+
+def build_unit(idx, vc_verify, vc_trusted, spec_files, verif_root, only_fns=None, spec_import=(), module_ext=True, vacuity=False):
+    VACUITY["on"] = vacuity
+    VACUITY["fns"] = []
+    return _build_unit(idx, vc_verify, vc_trusted, spec_files, verif_root, only_fns, spec_import, module_ext)
+
+
+def _build_unit(idx, vc_verify, vc_trusted, spec_files, verif_root, only_fns=None, spec_import=(), module_ext=True):
     """vc_verify: .vc files whose @fn entries are verified in this unit; vc_trusted: imported as contracts only.
     returns (text, origin map, info dict)"""
     em = Emitter()
